@@ -330,6 +330,10 @@ def check_removals(ctx, rule, childless_rule=None):
         # ---- J1-filter: element of filter(children(p), |c| c.state.is_infeasible())
         if verdict is None and c.name in ('remove_child', 'try_remove_child'):
             l = beta_map(F, l)
+            ec = label_of_edge_collection(F, l)
+            if ec is not None and ec[1] == {'Infeasible'} and s(ec[0][2][1]) == s(p):
+                verdict = 'J1: (p, label) of an edge drawn from the children of p whose cached state is Infeasible'
+        if verdict is None and c.name in ('remove_child', 'try_remove_child'):
             src, filters = filter_chain(l)
             if src is not None and filters:
                 okf = False
@@ -466,6 +470,34 @@ def _merge_justified(ctx, F, b, R, bb, args, lits, rule, site, span):
                         or (rhs[0] == 'bin' and rhs[1].startswith('Sub') and rhs[2] == ('const', 'K') and rhs[3] == ('const', 1))
                     if sp[1] == {'Infeasible'} and k_minus_1:
                         inf = (lhs[2][0], src)
+    if not (feas and inf):
+        # the same two facts about collections built by one pass (partition / partition_map), or lengths tested through a slice pattern
+        f2 = i2 = None
+        for lit in lits:
+            lf = length_fact(F, lit)
+            if lf is None:
+                continue
+            ch, states, n, coll = lf
+            n_ = s(n)
+            k_minus_1 = (n_[0] == 'field' and n_[2] == '0' and n_[1][0] == 'bin' and n_[1][1].startswith('Sub') and n_[1][2] == ('const', 'K') and n_[1][3] == ('const', 1)) \
+                or (n_[0] == 'bin' and n_[1].startswith('Sub') and n_[2] == ('const', 'K') and n_[3] == ('const', 1))
+            if states and states <= FEASIBLE_STATES and n_ == ('const', 1):
+                f2 = (coll, ch)
+            if states == {'Infeasible'} and k_minus_1:
+                i2 = (coll, ch)
+        if f2 and i2:
+            ml = label_of_edge_collection(F, l)
+            node = s(f2[1][2][1])
+            p_ok = s(p) == node
+            if not p_ok and p[0] == 'field' and p[2] == 'source_idx':
+                # the source of an edge taken from the feasible collection is the node whose children were enumerated
+                mp = label_of_edge_collection(F, ('field', p[1], 'label'))
+                p_ok = mp is not None and s(mp[2]) == s(f2[0])
+            same = node == s(i2[1][2][1]) and p_ok
+            if ml is not None and ml[1] <= FEASIBLE_STATES and s(ml[2]) == s(f2[0]) and same:
+                return 'J3: decision skipped under |children with feasible state| == 1 and |children with Infeasible state| == K-1; the forwarded child is the feasible one'
+            ctx.bad(rule, site, 'the forwarded child is not the unique feasible child of the node whose other children are Infeasible', span)
+            return 'bad'
     if feas or inf:
         if not (feas and inf):
             ctx.bad(rule, site, 'a decision is skipped without requiring both "exactly one feasible child" and "all other K-1 children Infeasible"', span)
@@ -557,6 +589,13 @@ def check_childless(ctx, rule):
                             lsp = [state_predicate_of_closure(F, g) for g in lfilters]
                             if any(x and x[1] == {'Infeasible'} for x in lsp):
                                 reason = 'p keeps its (unique) feasible child: only children with Infeasible state are removed'
+        if reason is None:
+            rl = label_of_edge_collection(F, beta_map(F, args[2]))
+            if rl is not None and rl[1] == {'Infeasible'}:
+                for lit in lits:
+                    lf = length_fact(F, lit)
+                    if lf is not None and lf[1] and lf[1] <= FEASIBLE_STATES and s(lf[2]) == ('const', 1) and s(lf[0][2][1]) == s(p):
+                        reason = 'p keeps its (unique) feasible child: only children with Infeasible state are removed'
         # (c) guarded by num_children(p) > 1
         if reason is None:
             for lit in lits:
@@ -1309,3 +1348,201 @@ def full_traversal_item(node, tree=('field', ('param', 'self'), 'tree')):
     if is_call(src, 'DfsPre::new', 'Bfs::new', 'DfsPre::iter', 'Bfs::iter') and len(src[2]) == 2:
         return src[2][0] == s_(tree) and is_call(src[2][1], 'Tree::get_root_idx') and src[2][1][2][0] == s_(tree)
     return False
+
+
+# ---------------------------------------------------------------------------------------
+# collections of child edges selected by their cached state (forward_if_redundant and its refactorings)
+
+STATE_VARIANTS = ('Infeasible', 'Indeterminate', 'Feasible', 'FeasibleWitness')
+FEASIBLE_STATES = frozenset(['Feasible', 'FeasibleWitness'])
+
+
+def _state_formula(F, e, prm):
+    """set of NodeState variants of prm.target_value.state for which the boolean expression e is true, or None"""
+    from ..mir import strip_sites as s_
+    e = s_(e)
+    allv = set(STATE_VARIANTS)
+    if e[0] == 'un' and e[1] == 'Not':
+        x = _state_formula(F, e[2], prm)
+        return None if x is None else allv - x
+    if is_call(e, 'Not::not') and len(e[2]) == 1:
+        x = _state_formula(F, e[2][0], prm)
+        return None if x is None else allv - x
+    if e[0] == 'call' and e[1].startswith('NodeState::') and len(e[2]) == 1:
+        a = e[2][0]
+        if a == ('field', ('field', prm, 'target_value'), 'state'):
+            ps = predicate_summary(F, e[1])
+            return None if ps is None else set(ps)
+    if e[0] == 'bin' and e[1] in ('BitAnd', 'BitOr'):
+        l_, r_ = _state_formula(F, e[2], prm), _state_formula(F, e[3], prm)
+        if l_ is None or r_ is None:
+            return None
+        return (l_ & r_) if e[1] == 'BitAnd' else (l_ | r_)
+    return None
+
+
+def _elem_kind(e, prm, F):
+    """what a map closure makes of the child edge `prm`"""
+    from ..mir import strip_sites as s_
+    e = s_(e)
+    if e == prm:
+        return 'child'
+    if e == ('field', prm, 'label'):
+        return 'label'
+    if is_call(e, 'EdgeReference::edge') and e[2] == (prm,):
+        return 'edge'
+    if e[0] == 'agg' and e[1] == 'tuple':
+        return ('tuple', tuple(_elem_kind(x, prm, F) for x in e[2]))
+    st = _state_formula(F, e, prm)
+    if st is not None:
+        return ('flag', frozenset(st))
+    return None
+
+
+def edge_collection(F, e):
+    """e = a collection of (things derived from) the child edges of one node, selected by their cached state through
+    filter / map / partition / partition_map (+ collect).  -> (children(..) call, set of states an element's target can have, element kind)"""
+    from ..mir import strip_sites as s_, Resolver as _R, literals as _lits, ret_defs as _ret_defs
+    while True:
+        if is_call(e, 'Itertools::collect_vec', 'Iterator::collect', 'IntoIterator::into_iter', 'Vec::as_slice', 'Deref::deref', '[T]::iter', 'Vec::iter') and e[2]:
+            e = e[2][0]
+        elif is_call(e, 'Index::index') and len(e[2]) == 2 and s_(e[2][1])[0] == 'agg' and 'RangeFull' in str(s_(e[2][1])[1]):
+            e = e[2][0]
+        else:
+            break
+    if is_call(e, 'Tree::children') and len(e[2]) == 2:
+        return e, set(STATE_VARIANTS), 'child'
+    if is_call(e, 'Iterator::filter') and len(e[2]) == 2 and e[2][1][0] == 'closure':
+        sub = edge_collection(F, e[2][0])
+        if sub is None or sub[2] != 'child':
+            return None
+        cb, rets = closure_ret(F, e[2][1])
+        if cb is None or not rets or len(rets) != 1:
+            return None
+        st = _state_formula(F, rets[0], ('param', cb.arg_names()[-1]))
+        if st is None:
+            return sub   # a filter on something else only narrows the collection
+        return sub[0], sub[1] & st, 'child'
+    if is_call(e, 'Iterator::map') and len(e[2]) == 2 and e[2][1][0] == 'closure':
+        sub = edge_collection(F, e[2][0])
+        if sub is None or sub[2] != 'child':
+            return None
+        cb, rets = closure_ret(F, e[2][1])
+        if cb is None or not rets or len(rets) != 1:
+            return None
+        k = _elem_kind(rets[0], ('param', cb.arg_names()[-1]), F)
+        return None if k is None else (sub[0], sub[1], k)
+    if e[0] == 'field' and e[2] in ('0', '1'):
+        side = int(e[2])
+        x = e[1]
+        if is_call(x, 'Itertools::partition_map') and len(x[2]) == 2 and x[2][1][0] == 'closure':
+            sub = edge_collection(F, x[2][0])
+            cb = F.closure(x[2][1][1])
+            if sub is None or sub[2] != 'child' or cb is None:
+                return None
+            Rc = _R(cb)
+            prm = ('param', cb.arg_names()[-1])
+            states, kinds = set(), set()
+            for bb, v, _sp in _ret_defs(cb, Rc):
+                v = s_(v)
+                if not (v[0] == 'agg' and isinstance(v[1], tuple) and v[1][1] == 'Either' and v[1][2] in ('Left', 'Right')):
+                    return None
+                here = set(STATE_VARIANTS)
+                for l in _lits(cb, Rc, bb):
+                    if l[0] == 'is' and s_(l[1]) == ('field', ('field', prm, 'target_value'), 'state'):
+                        here &= set(l[2])
+                    elif l[0] in ('true', 'false'):
+                        st = _state_formula(F, l[1], prm)
+                        if st is None:
+                            return None
+                        here &= st if l[0] == 'true' else set(STATE_VARIANTS) - st
+                if (v[1][2] == 'Left') == (side == 0):
+                    states |= here
+                    kinds.add(_elem_kind(v[2][0], prm, F))
+            if len(kinds) != 1 or None in kinds:
+                return None
+            return sub[0], sub[1] & states, kinds.pop()
+        if is_call(x, 'Iterator::partition') and len(x[2]) == 2 and x[2][1][0] == 'closure':
+            sub = edge_collection(F, x[2][0])
+            if sub is None:
+                return None
+            cb, rets = closure_ret(F, x[2][1])
+            if cb is None or not rets or len(rets) != 1:
+                return None
+            prm = ('param', cb.arg_names()[-1])
+            r = s_(rets[0])
+            st = None
+            if sub[2] == 'child':
+                st = _state_formula(F, r, prm)
+            elif isinstance(sub[2], tuple) and sub[2][0] == 'tuple' and r[0] == 'field' and r[1] == prm and r[2].isdigit():
+                k = sub[2][1][int(r[2])]
+                if isinstance(k, tuple) and k[0] == 'flag':
+                    st = set(k[1])
+            if st is None:
+                return None
+            return sub[0], sub[1] & (st if side == 0 else set(STATE_VARIANTS) - st), sub[2]
+    return None
+
+
+def label_of_edge_collection(F, l):
+    """l = the label of an element of an edge_collection (however the element carries it): (children call, states, collection expr) or None"""
+    from ..mir import strip_sites as s_
+    path = []
+    e = l
+    for _ in range(4):
+        if e[0] == 'field' and (e[2] == 'label' or e[2].isdigit()):
+            path.append(e[2])
+            e = e[1]
+        else:
+            break
+    path.reverse()
+    coll = None
+    if is_call(e, 'Iterator::next', '[T]::first', '[T]::last', 'Vec::pop', 'Itertools::exactly_one') and e[2]:
+        coll = e[2][0]
+    elif e[0] == 'index':
+        coll = e[1]
+    elif is_call(e, 'Index::index') and len(e[2]) == 2 and s_(e[2][1])[0] == 'const':
+        coll = e[2][0]
+    if coll is None:
+        return None
+    ec = edge_collection(F, coll)
+    if ec is None:
+        return None
+    kind = ec[2]
+    for step in path:
+        if step == 'label':
+            if kind in ('child', 'edge'):
+                kind = 'label'
+            else:
+                return None
+        else:
+            if isinstance(kind, tuple) and kind[0] == 'tuple' and int(step) < len(kind[1]):
+                kind = kind[1][int(step)]
+            else:
+                return None
+    if kind != 'label':
+        return None
+    return ec[0], ec[1], coll
+
+
+def length_fact(F, lit):
+    """a guard literal stating the exact length of an edge_collection: (children call, states, n expr, collection expr) or None"""
+    from ..mir import strip_sites as s_
+    if lit[0] not in ('true', 'false') or lit[1][0] != 'bin' or lit[1][1] not in ('Eq', 'Ne'):
+        return None
+    if (lit[1][1] == 'Eq') != (lit[0] == 'true'):
+        return None
+    lhs, rhs = lit[1][2], lit[1][3]
+    coll = None
+    if is_call(lhs, 'Vec::len', '[T]::len') and lhs[2]:
+        coll = lhs[2][0]
+    elif lhs[0] == 'un' and lhs[1] == 'PtrMetadata':
+        coll = lhs[2]
+    elif lhs[0] == 'PtrMetadata' and len(lhs) > 1:
+        coll = lhs[1]
+    if coll is None:
+        return None
+    ec = edge_collection(F, coll)
+    if ec is None:
+        return None
+    return ec[0], ec[1], rhs, coll
